@@ -22,6 +22,10 @@ import (
 type c16AsyncIn struct {
 	Ctx    []string `json:"ctx"`    // per call: ok | fail (the round trip fails) | bare (no withWireCapture)
 	Tracer bool     `json:"tracer"` // a real *tracer.Tracer behind the wireTracer
+	// per call: the SHAPE of the response (rc.VerifC16AShapes: data | empty | nobody | cl0 | 204 |
+	// 304 | head | h2es); absent = data.  The model does not look at it: whatever the shape, the
+	// trace is completed by the first of {body read to its end, body closed, cancellation}.
+	Body []string `json:"body,omitempty"`
 	Steps  []string `json:"steps"`
 }
 
@@ -37,7 +41,7 @@ func init() {
 		in := gen.Into[c16AsyncIn](raw)
 		var out c16AsyncOut
 		for attempt := 0; attempt < 3; attempt++ {
-			v := rc.VerifC16NewAsync(in.Ctx, in.Tracer)
+			v := rc.VerifC16NewAsyncShapes(in.Ctx, in.Body, in.Tracer)
 			out = c16AsyncOut{Obs: make([]string, 0, len(in.Steps))}
 			for _, st := range in.Steps {
 				out.Obs = append(out.Obs, v.Do(st))
@@ -139,13 +143,14 @@ func c16AsyncGen(c *gen.Ctx) {
 	r := c.R
 	var ins []any
 	seen := map[string]bool{}
-	graceBudget := 4
+	graceBudget := 5
 	if c.Thorough() {
 		graceBudget = 30
 	}
+	var shapes []string // of the script being emitted (nil: every call answers with data)
 	emit := func(ctx []string, tr bool, seq []string, mode int, grace bool) {
 		steps := c16AsyncAnnotate(seq, ctx, mode, grace)
-		key := fmt.Sprint(ctx, steps)
+		key := fmt.Sprint(ctx, shapes, steps)
 		if seen[key] {
 			return
 		}
@@ -160,7 +165,12 @@ func c16AsyncGen(c *gen.Ctx) {
 			}
 		}
 		seen[key] = true
-		ins = append(ins, c16AsyncIn{Ctx: ctx, Tracer: tr, Steps: steps})
+		for _, sh := range shapes {
+			if sh != "" && sh != "data" {
+				c.E.Count("wireasync:response-shape:" + sh)
+			}
+		}
+		ins = append(ins, c16AsyncIn{Ctx: ctx, Tracer: tr, Steps: steps, Body: append([]string(nil), shapes...)})
 	}
 	// one call: EVERY order of every subset of {round trip, context done, body read to its end |
 	// body closed, the wait begins}, for a transport that answers / fails / a context without
@@ -176,6 +186,37 @@ func c16AsyncGen(c *gen.Ctx) {
 			})
 		}
 	}
+	// the SHAPE of the response: a reader without data, http.NoBody (length 0 / Content-Length: 0 /
+	// 204 / 304 / answer to a HEAD / END_STREAM on the HTTP/2 HEADERS) x EVERY order of every subset
+	// of {round trip, context done, body read to its end | closed | neither, the wait begins} that
+	// makes the round trip (quick: one placement mode per order, in rotation; thorough: all four)
+	for _, sh := range rc.VerifC16AShapes[1:] {
+		shapes = []string{sh}
+		for _, body := range []string{"r:0", "cl:0"} {
+			c16Arrangements([]string{"rt:0", "x:0", body, "w:0"}, func(seq []string) {
+				has := false
+				for _, s := range seq {
+					has = has || s == "rt:0"
+				}
+				if !has {
+					return
+				}
+				n++
+				if c.Thorough() {
+					for mode := 0; mode < 4; mode++ {
+						emit([]string{"ok"}, (n+mode)%3 != 0, seq, mode, false)
+					}
+				} else {
+					emit([]string{"ok"}, n%3 != 0, seq, n%4, false)
+				}
+			})
+		}
+		// the caller never touches the bodiless response: nothing completes, the grace period runs out
+		if sh == "nobody" || c.Thorough() {
+			emit([]string{"ok"}, true, []string{"rt:0", "w:0"}, 0, true)
+		}
+	}
+	shapes = nil
 	// both body events, in both orders, around a cancellation
 	c16Arrangements([]string{"rt:0", "x:0", "r:0", "cl:0", "w:0"}, func(seq []string) {
 		if len(seq) < 5 && !c.Thorough() {
@@ -204,8 +245,14 @@ func c16AsyncGen(c *gen.Ctx) {
 		}
 		seq := perm[:r.Range(3, len(perm))]
 		ctx := []string{gen.Pick(r, []string{"ok", "ok", "ok", "fail", "bare"}), gen.Pick(r, []string{"ok", "ok", "fail"})}
-		emit(ctx, r.Bool(), seq, r.Intn(4), r.Chance(1, 40))
+		tr, mode, grace := r.Bool(), r.Intn(4), r.Chance(1, 40)
+		shapes = nil
+		if r.Bool() {
+			shapes = []string{gen.Pick(r, rc.VerifC16AShapes), gen.Pick(r, rc.VerifC16AShapes)}
+		}
+		emit(ctx, tr, seq, mode, grace)
 	}
+	shapes = nil
 	c.E.Add("wireasync:scripts", len(ins))
 	c.DoParallel("wireasync", ins, 16)
 }
